@@ -921,7 +921,7 @@ class IMAPClientCommand:
         if self._p_simple_string("(", silent=True, swallow=False):
             self.flag_list = self._p_paren_list_of(self._p_flag)
         else:
-            self.flag_list = [self._p_flag()]
+            self.flag_list = self._p_list_of(self._p_flag)
 
     #######################################################################
     #
